@@ -8,7 +8,7 @@ ROOT = os.path.dirname(os.path.dirname(os.path.abspath(__file__)))
 CHECKS = {
     "C07": ("exploration", "vf-math",
             "property-based testing (proptest): generated operand tuples and operation histories vs an integer reference model",
-            "Generated-input search: every base-field operation, conversion and observable is compared with plain integer arithmetic mod p on operands drawn 1:1:1 from boundary residues, structured/edge internal images (incl. operands solved to hit lazy-reduction windows) and uniform values; operation histories over 4 registers check the representation invariant after every step; all published constants are checked exhaustively against their defining equations. Not a proof: absence of a counter-example in the explored sample.",
+            "Generated-input search: every base-field operation, conversion and observable is compared with plain integer arithmetic mod p on operands drawn 1:1:1 from boundary residues, structured/edge internal images (incl. operands solved to hit lazy-reduction windows) and uniform values; exponents that are multiples of the group order (zero base included), TryFrom<usize> and the conversions out of f64 are covered; operation histories over 4 registers check the representation invariant after every step; all published constants are checked exhaustively against their defining equations. Not a proof: absence of a counter-example in the explored sample.",
             "Trusts the harness' u128 reference arithmetic (self-checked against num-bigint at start-up) and the hard-coded factorisations of p-1 (re-verified by division and trial primality).",
             "DESIGN.md 3/C07"),
     "C08": ("exploration", "vf-math",
@@ -18,12 +18,12 @@ CHECKS = {
             "DESIGN.md 3/C08"),
     "C09": ("exploration", "vf-math",
             "property-based testing (proptest): generated polynomials/matrices, differential against direct Horner evaluation",
-            "Generated-input search: every FFT entry point (evaluate, evaluate with offset/blowup, interpolate, serial_fft, twiddles, degree inference, permute_index) and the column-batched segmented LDE builders (ColMatrix, RowMatrix::<N> for N in 1,2,4,8,16 with 1..255 columns, StarkDomain) are compared with direct evaluation at offset*w^i over integer residues: all points for domains <= 256, generated sample positions above; sizes 2^1..2^12 (quick) / 2^15 (thorough), all three fields and five extension types.",
+            "Generated-input search: every FFT entry point (evaluate, evaluate with offset/blowup, interpolate, serial_fft, twiddles, degree inference, permute_index) and the column-batched segmented LDE builders (ColMatrix, RowMatrix::<N> for N in 1,2,4,8,16 with 1..255 columns, StarkDomain, single segments built by Segment::new at arbitrary base-column offsets) are compared with direct evaluation at offset*w^i over integer residues: all points for domains <= 256, generated sample positions above; sizes 2^1..2^12 (quick) / 2^15 (thorough), all three fields and five extension types.",
             "Serial build only (concurrent paths are C14). Domains above 256 points are compared at sampled positions (plus interpolate(evaluate(p)) == p on all coefficients). Uses the published root of unity, whose defining equations C07 checks.",
             "DESIGN.md 3/C09"),
     "C20": ("exploration", "vf-math",
             "property-based testing (proptest): generated polynomials, point sets and vectors vs schoolbook reference identities",
-            "Generated-input search over base and extension fields of the three primes: add/sub/mul/scalar/eval/degree/remove_leading_zeros, long division (q*b+r=a, deg r<deg b), synthetic division by x^a-b (incl. b=1, a>=2, repeated) and by root lists, Lagrange interpolation (single and batched N=2,4,8,16), poly_from_roots, batch inversion with zeros at generated positions, power series, add_in_place, mul_acc at lengths on both sides of the 1024-element threshold. Documented panics are required to happen; every other panic is a violation.",
+            "Generated-input search over base and extension fields of the three primes: add/sub/mul/scalar/eval/degree/remove_leading_zeros, long division (q*b+r=a, deg r<deg b), synthetic division by x^a-b (incl. b=1, a>=2, repeated) and by root lists, Lagrange interpolation (single and batched N=2,4,8,16), poly_from_roots, batch inversion with zeros at generated positions, power series, add_in_place, mul_acc at lengths on both sides of the 1024-element threshold; eval / eval_many / degree_of on polynomials of up to 4097 coefficients (odd lengths above 2048 included). Documented panics are required to happen; every other panic is a violation.",
             "Trusts the schoolbook reference (vf-ref). Power series of length 0 and empty dividend slices are not generated (undefined by the docs, no caller uses them).",
             "DESIGN.md 3/C20"),
     "C01": ("exploration", "vf-stark",
@@ -48,8 +48,8 @@ CHECKS = {
             "DESIGN.md 3/C17"),
     "C16": ("exploration", "vf-air",
             "exhaustive enumeration (run.enumerate) + property-based testing (proptest) against an independent step-set model",
-            "Exhaustive enumeration against a step-set model: every (n in {8..256}, k = 1..n/2+1) transition divisor and every valid assertion (kind x column in {0,1} x first step x stride x #values; sequence value lists unrelated, all equal, equal in pairs, alternating, all but the last equal) on all three base fields is evaluated on every trace-domain point (plus n+2 off-domain points for the transition divisor); overlaps_with is compared with step-set intersection for all ordered pairs at every n; BoundaryConstraints::new is driven with all ordered pairs for n <= 128 (quick) / n <= 256 (thorough) plus generated pairs; hand-enumerated ill-formed assertions must be refused. exhaustive:true is reported per sub-space actually completed; pairs/sampled is a sample.",
-            "Domain points come from the harness' integer field using the integer value of the published TWO_ADIC_ROOT_OF_UNITY (order established by C07). Non-vanishing of the transition divisor on exempt points is concluded from identity with the model product at n+2 points with non-zero denominator. Width fixed at 2 columns; base fields only.",
+            "Exhaustive enumeration against a step-set model: every (n in {8..256}, k = 1..n/2+1) transition divisor and every valid assertion (kind x column in {0,1} x first step x stride x #values; sequence value lists unrelated, all equal, equal in pairs, alternating, all but the last equal) on all three base fields is evaluated on every trace-domain point (plus n+2 off-domain points for the transition divisor); overlaps_with is compared with step-set intersection for all ordered pairs at every n; BoundaryConstraints::new is driven with all ordered pairs for n <= 128 (quick) / n <= 256 (thorough) plus generated pairs; hand-enumerated ill-formed assertions must be refused; in two-segment contexts of differing widths an assertion is accepted exactly when its column exists in its own segment. exhaustive:true is reported per sub-space actually completed; pairs/sampled is a sample.",
+            "Domain points come from the harness' integer field using the integer value of the published TWO_ADIC_ROOT_OF_UNITY (order established by C07). Non-vanishing of the transition divisor on exempt points is concluded from identity with the model product at n+2 points with non-zero denominator. Width fixed at 2 columns except in the segment-widths sub-check; base fields only.",
             "DESIGN.md 3/C16"),
     "C18": ("exploration", "vf-air",
             "exhaustive enumeration of the parameter lattice + property-based testing (proptest) of monotonicity and of the verifier's acceptance policy on generated honest and forged proofs",
@@ -88,7 +88,7 @@ CHECKS = {
             "DESIGN.md 3/C13"),
     "C14": ("exploration", "vf-conc",
             "differential property-based testing (proptest): the same generated workload executed by a build without and a build with the `concurrent` feature, over many rayon pool sizes and repetitions",
-            "Generated-input search with sampled schedules: workload items on both sides of every concurrency threshold (FFT variants, power series, batch inversion, add_in_place, mul_acc, transpose_slice, Merkle trees, segmented RowMatrix LDE + row commitments for 1..255 columns, FRI apply_drp + hash_values, whole GenAir proofs with constraint-evaluation domains on both sides of 8192 rows) are computed by the serial build and by the concurrent build inside rayon pools of 1,2,3,4,5,7,8,12,16,24,32,48,64 threads, 2-3 repetitions each, and once under every other pool size 1..64 (whole proofs: five more sizes derived from the item); digests of all deterministic outputs (for proofs: context, trace/constraint/FRI commitments, OOD frame; both proofs must verify) must be bit-identical; nonce and query data are exempt.",
+            "Generated-input search with sampled schedules: workload items on both sides of every concurrency threshold (FFT variants, power series, batch inversion, add_in_place, mul_acc, transpose_slice, Merkle trees, segmented RowMatrix LDE + row commitments for 1..255 columns, FRI apply_drp + hash_values, whole GenAir proofs with constraint-evaluation domains on both sides of 8192 rows, and of 8..32 rows under blowup 128 with a constraint of degree > 64) are computed by the serial build and by the concurrent build inside rayon pools of 1,2,3,4,5,7,8,12,16,24,32,48,64 threads, 2-3 repetitions each, and once under every other pool size 1..64 (whole proofs: five more sizes derived from the item; proofs of at most 32 rows: every size); digests of all deterministic outputs (for proofs: context, trace/constraint/FRI commitments, OOD frame; both proofs must verify) must be bit-identical; nonce and query data are exempt.",
             "Rayon's scheduler cannot be controlled: interleavings are sampled (pool sizes x repetitions), not enumerated; a divergence needing a rare interleaving can be missed. TSan is not used (crossbeam's fence-based synchronisation yields false reports).",
             "DESIGN.md 3/C14"),
     "C10": ("exploration", "vf-crypto",
@@ -98,12 +98,12 @@ CHECKS = {
             "DESIGN.md 3/C10"),
     "C11": ("exploration", "vf-crypto",
             "differential property-based testing against reference hashers (vf-ref); enumerated lengths and boundary limb assignments; algebraic laws",
-            "Generated-input search against independent references: blake3/sha3 crates over canonical little-endian bytes; textbook Rescue Prime / Jive over integer residues with the published tables, validated at start-up against the published permutation vectors. Covered: every byte length 0..200 and around k*7*rate, random contents to 400 bytes, element lists of every length 0..40 in base, quadratic and cubic typing with non-canonical internal images (must depend on residues only), merge = hash of concatenation, merge_with_int over 23 integer classes (injectivity), every two-class assignment of boundary limbs {0, 2^32-1, 2^32, p-1, ...} over all position masks for apply_round / apply_permutation, limbs solved to land an MDS product in the lazy-reduction window, determinism, hash(x) != hash(x||0), totality.",
+            "Generated-input search against independent references: blake3/sha3 crates over canonical little-endian bytes; textbook Rescue Prime / Jive over integer residues with the published tables, validated at start-up against the published permutation vectors. Covered: every byte length 0..200 and around k*7*rate, random contents to 400 bytes, element lists of every length 0..40 and long lists up to 2100 elements (2^k-1, 2^k, 2^k+1) in base, quadratic and cubic typing with non-canonical internal images (must depend on residues only), merge = hash of concatenation, merge_with_int over 23 integer classes (injectivity), every two-class assignment of boundary limbs {0, 2^32-1, 2^32, p-1, ...} over all position masks for apply_round / apply_permutation, limbs solved to land an MDS product in the lazy-reduction window, determinism, hash(x) != hash(x||0), totality.",
             "RpJive64_256's padding of a partial last block (overwrites instead of adds) is pinned as observed because the documentation does not decide it. Rp62_248's permutation internals are private and covered through apply_round / hash_elements / merge only.",
             "DESIGN.md 3/C11"),
     "C19": ("exploration", "vf-crypto",
             "stateful property-based testing (model-based) against a reference coin built on the reference hashers, plus metamorphic history perturbation",
-            "Generated-input search over histories of 1..30 operations (new / reseed / draw base, quadratic, cubic / draw_integers with count 1..255 below 2^1..2^32 / check_leading_zeros / the prover's grinding loop / requests documented to panic) on 12 hasher x field coins: two real coins (given representation vs canonical rebuild) and a reference coin are compared after every step (determinism, reference agreement, canonical serialisable elements, exactly count integers below the domain, proof-of-work measure), and up to four minimally different histories (seed element +1, reseed bit, nonce +-1, one extra draw) must change the next four base draws. Rejection sampling is additionally driven with chosen candidates through a scripted hasher (p, p+-1, 2p, top of the byte range, ... for base, quadratic and cubic draws): the first candidate with every coefficient below p must be returned, canonical, nothing after it consumed.",
+            "Generated-input search over histories of 1..30 operations (new / reseed / draw base, quadratic, cubic / draw_integers with count 1..255 below 2^1..2^32 / check_leading_zeros / the prover's grinding loop / requests documented to panic) on 12 hasher x field coins: two real coins (given representation vs canonical rebuild) and a reference coin are compared after every step (determinism, reference agreement, canonical serialisable elements, exactly count integers below the domain, proof-of-work measure), and up to four minimally different histories (seed element +1, reseed bit, nonce +-1, one extra draw) must change the next four base draws. Rejection sampling is additionally driven with chosen candidates through a scripted hasher (p, p+-1, 2p, top of the byte range, ... for base, quadratic and cubic draws): the first candidate with every coefficient below p must be returned, canonical, nothing after it consumed; check_leading_zeros on scripted digests with 0..64 trailing zero bits.",
             "The proof-of-work measure is modelled as implemented (trailing zeros of the first 8 bytes read little-endian), which differs from the wording of the doc comment. The extra-draw perturbation is asserted when the extra draw directly precedes the observed draws (rejection sampling can legitimately re-synchronise otherwise; counted as a label). FailedToDrawFieldElement accepted for cubic f62 only.",
             "DESIGN.md 3/C19"),
 }
